@@ -46,7 +46,15 @@ pub const POS_INTERVAL_NS: u64 = INTERVAL;
 pub const POS_MAX_BURST: u8 = MAX_BURST;
 
 /// A ProgressState built from public values (status: 0 in progress, 1 finished visibly, 2 finished and cleared).
-pub fn mk_state(len: Option<u64>, pos: u64, msg: &str, prefix: &str, tick: u64, status: u8, tab_width: usize) -> ProgressState {
+pub fn mk_state(
+    len: Option<u64>,
+    pos: u64,
+    msg: &str,
+    prefix: &str,
+    tick: u64,
+    status: u8,
+    tab_width: usize,
+) -> ProgressState {
     let p = Arc::new(AtomicPosition::new());
     p.set(pos);
     let mut st = ProgressState::new(len, p);
